@@ -125,6 +125,24 @@ pub fn run(ctx: &Ctx) {
             ctx.violations(f);
         }
     });
+    run_noncanonical(ctx);
+}
+
+fn run_noncanonical(ctx: &Ctx) {
+    // in-memory values that are not in RFC order (the writers normalise them): C03 only, since
+    // the oracle here compares the two serialisations with each other, not with the reference packet
+    let ps = gen::noncanonical_packets();
+    let mut t = crate::engine::Tally::default();
+    for (i, p) in ps.iter().enumerate() {
+        t.evals += 1;
+        t.transitions += 2;
+        t.nontrivial += 1;
+        let f = check_packet(p, &|| json!({"kind": "packet", "packet": p, "noncanonical": i}));
+        t.outcome(if f.is_empty() { "same" } else { "differs" });
+        ctx.violations(f);
+    }
+    ctx.merge(t);
+    ctx.space("non-canonical in-memory values: NSEC records whose windows are held out of order, next names under .local and elsewhere, owners shared with the question", ps.len() as u64, "complete");
 }
 
 pub fn replay(case: &Value) -> Vec<Finding> {
